@@ -76,7 +76,8 @@ def rule_union(ck: Check, repo: Repo) -> None:
     src = re.sub(r"\s+", " ", ast.unparse(far))
     ok = ("before, header, after = _find_first_spdx_comment(text, style=style)" in src
           or "before, header, after = _find_first_spdx_comment(text, style)" in src) and \
-        "except MissingReuseInfoError: before, header, after = ('', '', text)" in src
+        ("except MissingReuseInfoError: before, header, after = ('', '', text)" in src
+         or "except MissingReuseInfoError: before = '' header = '' after = text" in src)
     r.instance("found-header", {"ok": ok})
     if not ok:
         r.violation(f"{HD}.find_and_replace_header", "existing header block", "the found block (or '' when none) must be passed on", repo.loc(far))
